@@ -226,7 +226,7 @@ pub struct FuncDecl
 	pub head_only: bool,
 }
 
-#[derive(Debug, Clone, Copy, PartialEq, Eq, Hash)]
+#[derive(Debug, Clone, Copy, PartialEq, Eq, Hash, PartialOrd, Ord)]
 pub enum Top
 {
 	Const(usize),
